@@ -182,6 +182,7 @@ def run_workers(prop, seed, tier, total, nworkers, bindir, extra, stall_s, engin
                 for line in f:
                     if line.startswith("SUMMARY "):
                         summaries.append(json.loads(line[8:]))
+                        summaries[-1]["_lo"] = w.lo
         except Exception as e:
             die("cannot read worker output: %s" % e)
     hashes = HashSummary([w.hashes for w in workers if os.path.exists(w.hashes)])
@@ -251,6 +252,24 @@ def replay_file(path, timeout=600):
             return False, "run index %d completed (exit %d)" % (rep["index"], p.returncode)
         except subprocess.TimeoutExpired:
             return True, "run index %d did not terminate within %ss" % (rep["index"], rep.get("stall_s", 60))
+    if rep.get("engine") == "range":
+        # the violation needs the runs before it in the same process: re-run the slice
+        tmpd = tempfile.mkdtemp(prefix="range-replay-", dir=os.path.join(VERIF, "work"))
+        cmd = [os.path.join(BIN, ENGINE[prop]), "--prop", prop, "--tier", rep["tier"], "--seed", str(rep["batch_seed"]),
+               "--from", str(rep["from"]), "--to", str(rep["index"] + 1), "--replay-dir", tmpd]
+        try:
+            p = subprocess.run(cmd, stdout=subprocess.PIPE, stderr=subprocess.DEVNULL, env=ENV, timeout=timeout, text=True)
+        except subprocess.TimeoutExpired:
+            subprocess.run(["rm", "-rf", tmpd])
+            return False, "range replay did not terminate"
+        subprocess.run(["rm", "-rf", tmpd])
+        for line in p.stdout.splitlines():
+            if line.startswith("SUMMARY "):
+                for v in json.loads(line[8:])["violations"]:
+                    if v["index"] == rep["index"] and v["class"] == rep["class"]:
+                        return True, "REPRODUCED property=%s class=%s at run index %d after runs %d..%d in the same process: %s" % (
+                            prop, v["class"], rep["index"], rep["from"], rep["index"] - 1, v["detail"][:300])
+        return False, "run index %d shows no %s after runs %d.. in a fresh process" % (rep["index"], rep["class"], rep["from"])
     binary = "cowshuttle" if rep.get("engine") == "shuttle" else ENGINE[prop]
     cmd = [os.path.join(BIN, binary), "--prop", prop, "--replay", path] + rep.get("extra", [])
     try:
@@ -353,6 +372,7 @@ def check(prop, tier, seed, nworkers, scale):
     for s in summaries:
         for v in s["violations"]:
             if v["replay"]:
+                v["_lo"] = s.get("_lo")
                 violations.append(v)
             else:
                 unminimised += 1
@@ -362,6 +382,9 @@ def check(prop, tier, seed, nworkers, scale):
     known_hits = {}
     new_violations = 0
     replayed_known = {}
+    range_replays = 0
+    history_dependent = False
+    history_unreplayed = 0
     for v in violations:
         k = match_known(known, prop, v["class"], v["signature"])
         if k is not None and replayed_known.get(k["id"], 0) >= 3:
@@ -374,6 +397,30 @@ def check(prop, tier, seed, nworkers, scale):
             ok, out = True, "confirmed by re-running the single run index in a fresh process"
         else:
             ok, out = replay_file(v["replay"])
+        if not ok and history_dependent and range_replays >= 2:
+            # history dependence is already established and reported with two replayable
+            # slices; further runs that only fail in their batch are counted
+            history_unreplayed += 1
+            continue
+        if not ok and v.get("_lo") is not None and range_replays < 2:
+            # The minimised single run does not fail alone. Either the harness is not
+            # deterministic (a harness error) or the library carries state from one call to
+            # the next, so that this run's outcome depends on the runs before it in the same
+            # process. Decide by re-running the worker's slice up to this run in a fresh
+            # process: if the violation is back at the same index, the second holds, and
+            # that history dependence is reported with the slice as its replay.
+            range_replays += 1
+            rpath = os.path.join(REPLAYS, "%s-%d-%d-range.json" % (prop, seed, v["index"]))
+            with open(rpath, "w") as f:
+                json.dump({"property": prop, "engine": "range", "tier": tier, "batch_seed": seed, "from": v["_lo"], "index": v["index"],
+                           "class": v["class"], "signature": v["signature"], "detail": v["detail"],
+                           "note": "the minimised run alone does not fail in a fresh process (%s); runs from..index of the batch do" % os.path.basename(v["replay"])},
+                          f, indent=1)
+            ok, out = replay_file(rpath, timeout=3600)
+            if ok:
+                history_dependent = True
+                v = dict(v, replay=rpath, signature=v["signature"] + " history-dependent",
+                         detail="only after the preceding runs of the same process (state carried across calls): " + v["detail"])
         if not ok:
             die("violation %s (%s) from run index %s did not reproduce from %s in a fresh process: %s"
                 % (v["class"], v["signature"], v.get("index"), v["replay"], out[:300]))
@@ -389,6 +436,8 @@ def check(prop, tier, seed, nworkers, scale):
         log("  class=%s signature=[%s]" % (v["class"], v["signature"]))
         log("  %s" % v["detail"][:600])
         exit_code = 1
+    if history_unreplayed:
+        log("note: %d further violations fail only after the preceding runs of their batch (not replayed one by one)" % history_unreplayed)
     for kid, (k, n) in sorted(known_hits.items()):
         log("KNOWN-FINDING: property=%s %s (%s; seen in %d runs)" % (prop, k["what"], kid, n))
 
